@@ -255,7 +255,7 @@ CLAIMED = {
         "tangential position is negated and the ring difference is taken with exchanged end points under the same flag; by closed-form "
         "algebra arc-corrected get_s = tangential position * bin_size (uniform sampling, odd), non-arc-corrected get_s is odd, get_phi is "
         "affine in the view with slope azimuthal_angle_sampling, get_m is affine in the axial position with the segment's axial sampling, "
-        "get_tantheta is odd in the ring difference and even in s and equals the axial distance over the TRANSAXIAL distance of the end points in both geometry families (F39, fixed); the azimuthal offset of view-mashed data is pi/(N/2)*(M-1)/2 with a real-valued (M-1)/2. the coordinate getters of the blocks/generic geometries are components of the one get_LOR conversion (a getter using only the z components of the detection points is refused). NOT decided: that get_bin(get_LOR(bin)) returns the same or a "
+        "get_tantheta is odd in the ring difference and even in s and equals the axial distance over the TRANSAXIAL distance of the end points in both geometry families (F39, fixed); the azimuthal offset of view-mashed data is pi/(N/2)*(M-1)/2 with a real-valued (M-1)/2. the coordinate getters of the blocks/generic geometries are components of the one get_LOR conversion (a getter using only the z components of the detection points is refused). in every branch of get_sino_coords the swapped flag is true exactly when the end points are exchanged (F77, fixed). NOT decided: that get_bin(get_LOR(bin)) returns the same or a "
         "neighbouring bin, agreement of the coordinates with the detectors' physical positions, TOF bin boundaries, arc correction "
         "preserving integrals (floating-point geometry over runtime scanner parameters).",
         technique="static analysis: typestate (range test after last modification) over clang CFG with short-circuit-aware ordering, "
